@@ -14,8 +14,11 @@ use crate::cmd::Cli;
 
 #[cfg(target_pointer_width = "32")]
 const SCRATCH_ARENA_CAPACITY: usize = 64 * MEBI;
+// Address space only (pages are committed on demand). A program just over the analysis
+// limits (131,073 scopes, 262,146 statements) needs a little more than 256 MiB to be parsed
+// and checked, so with that capacity it aborted instead of running without optimisation.
 #[cfg(target_pointer_width = "64")]
-const SCRATCH_ARENA_CAPACITY: usize = 256 * MEBI;
+const SCRATCH_ARENA_CAPACITY: usize = 1024 * MEBI;
 
 fn main() -> ExitCode {
     let cli = Cli::parse();
